@@ -38,6 +38,15 @@ CLAIMED = {
             "covered exhaustively on the real AST: permutation, validity, idempotence, unchanged valid orders, "
             "input not modified, check_order/apply accept iff the stated rule holds, unknown identifiers rejected, "
             "apply restarts from raw data and runs steps in the given order.", "3 C14"),
+    "C18": ("proof", "contract-based deductive verification: map contracts (symbolic registry pre-state) on "
+            "register_model/deregister_model, exceptional postconditions, complete single-fault rejection table of "
+            "NaniteFitModel._module_check, load_model_from_file with sys.path as an unbounded z3 sequence and "
+            "try/finally semantics, ancillary-seeding contract of guess_initial_parameters; bounded stand-in for a "
+            "model loaded from a file",
+            "Every clause is a discharged obligation on the real bodies for every registry state (own key / any "
+            "other key present or absent), every single-fault mutant of a valid module, every sys.path content of "
+            "any length and every ancillary dictionary incl. NaN values; 'behaves like shipped code' for a file "
+            "model composes with C13 and is additionally exercised bounded.", "3 C18"),
 }
 
 NOT_APPLICABLE = {
